@@ -1,2 +1,3 @@
 import GraphSlam.Props.C08.Representation
+import GraphSlam.Props.E2E.Step
 /-! C08 — umbrella. -/
